@@ -28,12 +28,28 @@ def sig(r):
     return s
 
 
+BIN = {'quick': ['gen/MC_C07cbor_q.cfg', 'gen/MC_C07msgpack_q.cfg', 'gen/MC_C07ubjson_q4.cfg', 'gen/MC_C07bson_tok_q.cfg', 'gen/MC_C07bson_rep.cfg',
+                 'gen/MC_C07cbor_rep.cfg', 'gen/MC_C07msgpack_rep.cfg', 'gen/MC_C07ubjson_rep.cfg'],
+       'thorough': ['gen/MC_C07cbor_q.cfg', 'gen/MC_C07cbor_tok_q.cfg', 'gen/MC_C07msgpack_q.cfg', 'gen/MC_C07msgpack_tok_q.cfg', 'gen/MC_C07ubjson_q4.cfg',
+                    'gen/MC_C07ubjson_tok_q.cfg', 'gen/MC_C07bson_tok_q.cfg', 'gen/MC_C07bson_rep.cfg', 'gen/MC_C07cbor_rep.cfg', 'gen/MC_C07msgpack_rep.cfg', 'gen/MC_C07ubjson_rep.cfg']}
+
+
+def bsig(r):
+    c = r['case'] if isinstance(r.get('case'), dict) else {}
+    s = {'format': c.get('f'), 'bytes': bytes(c.get('b', [])).hex()}
+    for k in ('delivery', 'base_ok', 'got_ok'):
+        if k in r:
+            s[k] = r[k]
+    return s
+
+
 def gens(tier):
     return [vf.tlc_gen('gen/MC_C03', c, timeout=2400) for c in CFG[tier]]
 
 
 def setup():
     vf.build('c03', ['c03.cpp'])
+    vf.build('c03bin', ['c03bin.cpp'])
     gens('quick')
 
 
@@ -42,6 +58,12 @@ def run(tier):
     binary = vf.build('c03', ['c03.cpp'])
     g = gens(tier)
     totals = vf.g_replay(rep, binary, g, sig, args=['--seed', str(rep.seed)])
+    # binary formats: every byte string of the C07 spaces through bytes / stream (buffer sizes 1..9, default) / iterator sources, reader and cursor
+    bbin = vf.build('c03bin', ['c03bin.cpp'])
+    gb = [vf.tlc_gen('gen/MC_C07', c, timeout=2400) for c in BIN[tier] if os.path.exists(os.path.join(vf.SPEC, c))]
+    tb = vf.g_replay(rep, bbin, gb, bsig)
+    totals['deliveries'] = totals.get('deliveries', 0) + tb.get('deliveries', 0)
+    totals['cases'] = totals.get('cases', 0) + tb.get('cases', 0)
     cov = rep.coverage
     cov['traces_validated_against_impl'] = totals.get('deliveries', 0)
     cov['evaluations'] = totals.get('deliveries', 0)
@@ -51,10 +73,11 @@ def run(tier):
                    'whole tokens, as enumerated by TLC from spec/JsonText.tla; deliveries per text and option set = all 2^(n-1) compositions '
                    'into chunks (n<=7; single splits, uniform sizes and seeded random splits beyond) for two push-parser protocols, '
                    'stream_source buffer sizes 1..n+1 for reader and cursor, iterator source, string/filtered cursor, read_to (outer, inner), '
-                   'staj array/object iterators; a case is non-trivial = one distinct text')
+                   'staj array/object iterators; binary formats: every byte string of the listed C07 spaces x 23 deliveries; a case is non-trivial = one distinct input')
     cov['bounds'] = {c: open(os.path.join(vf.SPEC, c)).read().split('CONSTANTS')[1].split()[:6] for c in CFG[tier]}
     cov['samples'] = vf.sample_lines(g[1][0], 2)
-    rep.assumptions += ['JSON text only in this check; binary formats and CSV are covered differentially in the format checks',
+    rep.assumptions += ['binary formats: differential only (bytes source vs stream sources with buffer sizes 1..9 and default, iterator source, cursor) over the C07 input spaces; CSV is not covered here',
+                        'binary cursors are not compared on maps whose keys are containers (no documented event image)',
                         'cursors are not compared on inputs that contain no value at all (empty / whitespace / comment only): a cursor reports those as an empty stream',
                         'semantic tags of string events (noesc hint) are not observables']
     return rep.finish(dict(harness='c03'))
